@@ -73,3 +73,36 @@ Definition g_overlap (c d : chan) : bool :=
 (* gnpy/core/info.py: SpectralInformation.__init__, baud rate vs slot width *)
 Definition g_exceed (c : chan) : bool :=
   negb (Qle_bool (cbr c) (csw c)).
+
+(* ---- element programs: the SpectralInformation primitives each element kind applies, in source order;
+        (true, k) = inside a plain `if` (optional), (false, k) = always ---- *)
+Fixpoint g_variants (p : list (bool * okind)) : list (list okind) :=
+  match p with
+  | [] => [[]]
+  | (false, k) :: t => map (cons k) (g_variants t)
+  | (true, k) :: t => map (cons k) (g_variants t) ++ g_variants t
+  end.
+
+(* gnpy/core/elements.py: Roadm.propagate *)
+Definition g_program_roadm : list (bool * okind) :=
+  [(false, OAtt); (false, OAtt)].
+
+(* gnpy/core/elements.py: Fused.propagate *)
+Definition g_program_fused : list (bool * okind) :=
+  [(false, OAtt)].
+
+(* gnpy/core/elements.py: Fiber.propagate *)
+Definition g_program_fiber : list (bool * okind) :=
+  [(false, OAtt); (false, ONli); (false, OAtt); (false, OAtt)].
+
+(* gnpy/core/elements.py: RamanFiber.propagate *)
+Definition g_program_raman : list (bool * okind) :=
+  [(false, OAtt); (false, ONli); (false, OAse); (false, OAtt); (false, OAtt)].
+
+(* gnpy/core/elements.py: Edfa.propagate *)
+Definition g_program_edfa : list (bool * okind) :=
+  [(true, OAtt); (false, OAse); (false, OGain)].
+
+(* gnpy/core/elements.py: Transceiver.__call__ *)
+Definition g_program_trx : list (bool * okind) :=
+  [].
